@@ -20,10 +20,10 @@
    skipped region - gives the same result on two texts whose bytes have the same classes position by position (digit,
    hex letter a-f, hex letter A-F, other lower case, other upper case, each reserved character as itself, anything else);
    so do the From-tag signature and the Call-ID signature for a given place of the IP address.
-   The Via branch signature is that of the first parameter named branch (C19_via_branch_signature, for a Via text whose first
-   parameter is the branch) and depends on the classes of its text after the RFC 3261 prefix.
+   The Via branch signature is that of the first parameter named branch (C19_via_branch_signature; with other name=value parameters in front:
+   C19_via_branch_signature_after_other_parameters) and depends on the classes of its text after the RFC 3261 prefix.
    PARTIAL: where ContainsIP6 finds the address (supplied by the code in the correspondence run; ContainsIP4 is modelled:
-   C20); other shapes of the Via text (branch not the first parameter, white space, quoted values): model + correspondence + oracle. *)
+   C20); other shapes of the Via text (valueless parameters in front, white space, quoted values): model + correspondence + oracle. *)
 From Sipsp Require Import Harness Tables SigWalk SigInv SigCoherent SigFun StrSig StrSigClass TokSpec.
 Theorem C19_replies_yield_no_signature : forall cs ss vs m buf, msg_request m = false ->
   get_msg_sig cs ss vs m buf = Some (msgsig0, EEmpty).
@@ -129,6 +129,22 @@ Theorem C19_via_branch_signature : forall (host : list byte) v0 value,
   forall c tail, plain viabr_flags c ->
     viabr_sig_len (host ++ (59 : byte) :: str_branch ++ (61 : byte) :: (v0 :: value) ++ (59 : byte) :: c :: tail) = Some (branch_res (v0 :: value)).
 Proof. intros host v0 value Hh Hv0 Hval. split; [apply viabr_branch_last; assumption|intros c tail Hc; apply viabr_branch_then_more; assumption]. Qed.
+(* with other parameters name=value in front of the branch: they are stepped over, the first parameter named branch decides *)
+Theorem C19_via_branch_signature_after_other_parameters : forall (host : list byte) P v0 value rest,
+  Forall (fun d => (d =? 59) = false) host -> Forall vp_ok P -> plain viabr_flags v0 -> Forall (plain viabr_flags) value ->
+  (rest = [] \/ exists c tail, rest = (59 : byte) :: c :: tail /\ plain viabr_flags c) ->
+  viabr_sig_len (host ++ (59 : byte) :: vps_text P ++ br_text v0 value ++ rest) = Some (branch_res (v0 :: value)).
+Proof. exact viabr_branch_after_params. Qed.
+Theorem C19_via_parameters_mean : forall q P v0 value,
+  (vp_ok q <-> plain viabr_flags (vp_n0 q) /\ Forall (plain viabr_flags) (vp_name q) /\ plain viabr_flags (vp_v0 q) /\ Forall (plain viabr_flags) (vp_value q) /\
+               eqb_nocase (vp_n0 q :: vp_name q) str_branch = false) /\
+  vps_text (q :: P) = (vp_n0 q :: vp_name q) ++ (61 : byte) :: (vp_v0 q :: vp_value q) ++ [(59 : byte)] ++ vps_text P /\ vps_text [] = [] /\
+  br_text v0 value = str_branch ++ (61 : byte) :: v0 :: value.
+Proof. intros. split; [reflexivity|]. split; [cbn [vps_text flat_map]; fold (vps_text P); unfold vp_text; repeat (rewrite <- ?app_assoc; cbn [app]); reflexivity|]. split; reflexivity. Qed.
+Example C19_via_example : (* "h;rport=1;branch=z9hG4bKa1b2c3d4;x" *)
+  viabr_sig_len ([104] ++ (59 : byte) :: vps_text [mkvprm 114 [112;111;114;116] 49 []] ++ br_text 122 [57;104;71;52;98;75;97;49;98;50;99;51;100;52] ++ [59;120]) = Some (8192, 8) /\
+  vp_ok (mkvprm 114 [112;111;114;116] 49 []).
+Proof. split; [vm_compute; reflexivity|]. unfold vp_ok. cbn [vp_n0 vp_name vp_v0 vp_value]. repeat split; try (vm_compute; reflexivity); repeat constructor; vm_compute; repeat split; reflexivity. Qed.
 Theorem C19_via_branch_result_means : forall val,
   branch_res val = (if (7 <? nnat (length val)) && eqb_nocase (firstn 7 val) str_brprefix then (str_sig0 (skipn 7 val), nnat (length val) - 7)
                     else (str_sig0 val, nnat (length val))) /\
@@ -147,5 +163,6 @@ Proof. repeat split; vm_compute; reflexivity. Qed.
 Print Assumptions C19_string_signature_depends_only_on_character_classes.
 Print Assumptions C19_callid_signature_classes.
 Print Assumptions C19_via_branch_signature.
+Print Assumptions C19_via_branch_signature_after_other_parameters.
 Print Assumptions C19_other_headers_do_not_matter.
 Print Assumptions C19_other_headers_do_not_matter_for_parsed_messages.
